@@ -163,7 +163,9 @@ def gen_params(rng, tier):
     return {"n": n, "cols": cols, "present": present, "features": feats, "binning": rng.choice(["auto", "unit"]),
             "bin_specs": specs, "time_axis": time_axis, "assign": assign, "order": order,
             "index": rng.choice(["range", "range", "shuffled", "offset", "dates", "dup"]),
-            "nbins": rng.choice([None, None, [5, 4, 3]])}
+            "nbins": rng.choice([None, None, [5, 4, 3]]),
+            # a non-default binning of the time axis for the first call (the chunk calls get it through the returned bin_specs)
+            "time_bin": rng.choice([None, None, ["7d", "2020-01-06"], ["1d", "2019-12-30"], [3600e9 * 24 * 14, 0]])}
 
 
 def build(p):
@@ -385,8 +387,19 @@ class C14Exec(execs.PyExec):
         df = make_frame(p)
         keep = df.copy(deep=True)
         user_specs = copy.deepcopy(p["bin_specs"])
+        extra = {}
+        if p.get("time_bin") and p["time_axis"]:
+            extra = {"time_width": p["time_bin"][0], "time_offset": p["time_bin"][1]}
         hists, feats, specs, tax, vdt = self.call(df, p, features=copy.deepcopy(p["features"]) or None, bin_specs=user_specs,
-                                                  time_axis=p["time_axis"], ret_specs=True)
+                                                  time_axis=p["time_axis"], ret_specs=True, **extra)
+        # what the caller specified takes precedence over anything derived: it is returned unchanged
+        for key, val in p["bin_specs"].items():
+            if val and specs.get(key) != val:
+                msgs.append("bin_specs[%r] was given as %r but %r is returned (and used)" % (key, val, specs.get(key)))
+        if extra and "xt" not in p["bin_specs"] and tax == "xt":
+            want = {"binWidth": float(pd.Timedelta(extra["time_width"]).value), "origin": float(pd.Timestamp(extra["time_offset"]).value)}
+            if specs.get("xt") != want:
+                msgs.append("time_width/time_offset %r give the time-axis specification %r, expected %r" % (p["time_bin"], specs.get("xt"), want))
         n = len(df)
         cols = converted_columns(keep)
         if p["features"] and sorted(feats) != sorted(p["features"]):
